@@ -1343,6 +1343,38 @@ func noDiagnosticOnSuccess(c *Ctx, p *Prog, m *Model) {
 // record's msg is no longer the text the caller logged. Functions that BUILD the message (the print/printf verbs,
 // the log.Logger bridge that converts a byte buffer) are the chain's origins and not restricted.
 func messageIdentity(c *Ctx, p *Prog, rule string) {
+	fieldIdentity(c, p, rule, "msg", "message", isStringT)
+}
+
+// attrsIdentity: (R07.4) the list the member emitter sorts, de-duplicates and prints is the list that was collected:
+// every hop from the collector to the encoder's attribute field passes its list parameter itself, and the top-level
+// call of the member emitter is given that field itself - a filtered or rebuilt list (entries dropped before the
+// de-duplication) lets an attribute that was shadowed by a later one come back.
+func attrsIdentity(c *Ctx, p *Prog, rule string) {
+	isAttrs := func(t types.Type) bool { return typeName(t) == "Attrs" }
+	fieldIdentity(c, p, rule, "kvps", "attribute list", isAttrs)
+	r := c.R
+	sa := p.Func(p.Slog, "serializeAttrs")
+	if sa == nil {
+		return
+	}
+	n := 0
+	for _, cs := range p.staticCallers()[sa] {
+		fn := cs.Parent()
+		if fn.Signature.Recv() == nil || typeName(fn.Signature.Recv().Type()) != "Entry" {
+			continue // group members: their own lists
+		}
+		n++
+		arg := cs.Common().Args[len(cs.Common().Args)-1]
+		_, ok := isFieldLoadOf(strip(arg), "PrintCtx", "kvps")
+		r.Check(ok, rule, "attrs-emit:"+shortName(fn), p.Pos(instrPos(cs)), "the member emitter is given the collected list itself", "the member emitter is given a list computed from the collected one ("+arg.String()+"), not the list itself: entries removed or reordered before the sort and the de-duplication change which occurrence of a key wins")
+	}
+	if n == 0 {
+		r.Unk(rule, "attrs-emit", "-", "no top-level call of the member emitter found")
+	}
+}
+
+func fieldIdentity(c *Ctx, p *Prog, rule, field, what string, typeOK func(types.Type) bool) {
 	r := c.R
 	type role struct {
 		fn  *ssa.Function
@@ -1367,8 +1399,8 @@ func messageIdentity(c *Ctx, p *Prog, rule string) {
 	var hops []hop
 	for _, fn := range p.RepoFuncs() {
 		for _, fs := range fieldStores(fn) {
-			if fs.Struct == "PrintCtx" && fs.Field == "msg" && fs.Kind == "store" && fs.Val != nil {
-				hops = append(hops, hop{fn, fs.Instr, fs.Val, "the encoder's message field"})
+			if fs.Struct == "PrintCtx" && fs.Field == field && fs.Kind == "store" && fs.Val != nil {
+				hops = append(hops, hop{fn, fs.Instr, fs.Val, "the encoder's " + what + " field"})
 				if prm, ok := strip(fs.Val).(*ssa.Parameter); ok {
 					add(fn, prm)
 				}
@@ -1376,7 +1408,7 @@ func messageIdentity(c *Ctx, p *Prog, rule string) {
 		}
 	}
 	if len(hops) == 0 {
-		r.Unk(rule, "message:field", "-", "no store to the encoder's message field found")
+		r.Unk(rule, field+":field", "-", "no store to the encoder's %s field found", what)
 		return
 	}
 	callers := p.staticCallers()
@@ -1388,8 +1420,8 @@ func messageIdentity(c *Ctx, p *Prog, rule string) {
 				continue
 			}
 			arg := cs.Common().Args[w.idx]
-			hops = append(hops, hop{cs.Parent(), cs, arg, "the message parameter of " + shortName(w.fn)})
-			if prm, ok := strip(arg).(*ssa.Parameter); ok && isStringT(prm.Type()) {
+			hops = append(hops, hop{cs.Parent(), cs, arg, "the " + what + " parameter of " + shortName(w.fn)})
+			if prm, ok := strip(arg).(*ssa.Parameter); ok && typeOK(prm.Type()) {
 				add(cs.Parent(), prm)
 			}
 		}
@@ -1406,17 +1438,17 @@ func messageIdentity(c *Ctx, p *Prog, rule string) {
 			continue // an origin: builds the message
 		}
 		n++
-		key := fmt.Sprintf("message:%s->%s", shortName(h.fn), strings.TrimPrefix(h.what, "the message parameter of "))
+		key := fmt.Sprintf("%s:%s->%s", field, shortName(h.fn), strings.TrimPrefix(h.what, "the "+what+" parameter of "))
 		bad := ""
 		for _, q := range mine {
 			if strip(h.arg) != ssa.Value(q) && dependsOn(h.arg, q) {
-				bad = fmt.Sprintf("%s receives a value computed from the message parameter %s, not the parameter itself: the record's msg is not the text that was logged (a trailing newline, blank or any other part of it is lost or changed)", h.what, nm(q))
+				bad = fmt.Sprintf("%s receives a value computed from the parameter %s, not the parameter itself: the record does not carry what was logged (part of it is lost or changed on the way)", h.what, nm(q))
 			}
 		}
-		r.Check(bad == "", rule, key, p.Pos(instrPos(h.in)), "the message is handed on unchanged", bad)
+		r.Check(bad == "", rule, key, p.Pos(instrPos(h.in)), "the "+what+" is handed on unchanged", bad)
 	}
-	if n < 3 {
-		r.Unk(rule, "message:chain", "-", "only %d hops of the message chain recognised", n)
+	if n < 2 {
+		r.Unk(rule, field+":chain", "-", "only %d hops of the %s chain recognised", n, what)
 	}
 }
 
@@ -1945,4 +1977,441 @@ func reachOnlyViaSink(p *Prog, m *Model, fn, target *ssa.Function) bool {
 		return false
 	}
 	return !dfs(fn)
+}
+
+// ---- nothing but the selected destination is written (C03 "writers outside the selected set receive nothing") ----------
+//
+// In the sink and in the helpers of its failure path every Write on a destination (an invoke of Write on an
+// interface value, or a call of the writer list's / writer set's Write) has as receiver the value findWriter
+// selected for the record's severity - never the package default set, another level's set or a remembered writer.
+func onlySelectedWritten(c *Ctx, p *Prog, m *Model, rule string) {
+	r := c.R
+	n := 0
+	skip := map[string]bool{"LWs": true, "dualWriter": true, "logwr": true, "filewr": true, "discard": true}
+	for _, fn := range failureRegion(p, m) {
+		if fn.Signature.Recv() != nil && skip[typeName(fn.Signature.Recv().Type())] {
+			continue // the fan-out and the wrappers themselves: judged by R02.2 / R13.1
+		}
+		for _, cs := range callsIn(fn) {
+			var recv ssa.Value
+			switch {
+			case cs.Common().IsInvoke() && cs.Common().Method.Name() == "Write":
+				recv = cs.Common().Value
+			case calleeOf(cs) != nil && calleeOf(cs).Name() == "Write" && calleeOf(cs).Pkg == p.Slog && calleeOf(cs).Signature.Recv() != nil && len(cs.Common().Args) > 0:
+				recv = cs.Common().Args[0]
+			default:
+				continue
+			}
+			if typeName(recv.Type()) == "PrintCtx" {
+				continue
+			}
+			n++
+			bad := ""
+			for _, sv := range sources(recv) {
+				call, ok := sv.(*ssa.Call)
+				if ok {
+					if cal := calleeOf(call); cal != nil && nm(cal) == "findWriter" {
+						continue
+					}
+				}
+				if prm, isP := sv.(*ssa.Parameter); isP {
+					// handed in by the sink: judged at the sink's call site
+					okAll := true
+					idx := -1
+					for i, q := range fn.Params {
+						if q == prm {
+							idx = i
+						}
+					}
+					for _, site := range p.staticCallers()[fn] {
+						if idx < 0 || idx >= len(site.Common().Args) {
+							okAll = false
+							continue
+						}
+						for _, s2 := range sources(site.Common().Args[idx]) {
+							c2, ok2 := s2.(*ssa.Call)
+							if !ok2 || calleeOf(c2) == nil || nm(calleeOf(c2)) != "findWriter" {
+								okAll = false
+							}
+						}
+					}
+					if okAll && len(p.staticCallers()[fn]) > 0 {
+						continue
+					}
+				}
+				bad = m.valDesc(sv)
+			}
+			key := fmt.Sprintf("selected-only:%s", shortName(fn))
+			r.Check(bad == "", rule, key, p.Pos(instrPos(cs)), "the destination written is the one findWriter selected", "a destination other than the one selected for the record's severity is written ("+bad+"): writers outside the selected set must receive nothing, whatever happens to the selected ones")
+		}
+	}
+	if n == 0 {
+		r.Unk(rule, "selected-only:none", "-", "no Write on a destination found in the sink")
+	}
+}
+
+// ---- pair grammar of the fixed members (C05 R05.11, C04 R04.9) -----------------------------------------------------------
+//
+// The printers of the fixed members (time, logger, level, msg, caller) are walked over their mode-feasible acyclic
+// paths in the structured modes. Reading separator calls, key/pair writers and braces as tokens, no path has two
+// pairs without a separator between them, two separators in a row, a separator right after an opening brace or
+// right before a closing one: whatever the flags that decide which parts of a member are printed.
+func fixedMemberGrammar(c *Ctx, p *Prog, m *Model, mode Mode, rule string) {
+	r := c.R
+	pi := p.Method(p.Slog, "Entry", "printImpl")
+	sa := p.Func(p.Slog, "serializeAttrs")
+	if pi == nil {
+		r.Unk(rule, fmt.Sprintf("pairs[%s]", mode), "-", "printImpl not found")
+		return
+	}
+	token := func(cs ssa.CallInstruction) string {
+		cal := calleeOf(cs)
+		if cal == nil || cal.Signature.Recv() == nil || typeName(cal.Signature.Recv().Type()) != "PrintCtx" {
+			return ""
+		}
+		args := cs.Common().Args
+		switch n := nm(cal); {
+		case n == "pcAppendComma" || n == "AddComma":
+			return "sep"
+		case n == "pcAppendStringKey" || n == "pcAppendStringKeyPrefixed":
+			return "pair"
+		case strings.HasPrefix(n, "Add") && len(args) >= 3:
+			return "pair"
+		case n == "Begin":
+			return "open"
+		case n == "End":
+			return "close"
+		case n == "pcAppendByte" || n == "WriteByte" || n == "pcAppendRune":
+			if v, ok := constInt(args[len(args)-1]); ok {
+				switch v {
+				case '{':
+					return "open"
+				case '}':
+					return "close"
+				}
+			}
+		}
+		return ""
+	}
+	// a function's effect on the token state: for each state it can be entered in, the states it can leave in;
+	// problems found on the way are collected once per site
+	type effect map[string]map[string]bool // in-state -> out-states
+	memo := map[*ssa.Function]effect{}
+	busy := map[*ssa.Function]bool{}
+	probs := map[string]bool{}
+	incomplete := false
+	states := []string{"open", "pair", "sep"}
+	step := func(prev, t string, at ssa.Instruction, fn *ssa.Function) string {
+		switch {
+		case t == "pair" && prev == "pair":
+			probs[fmt.Sprintf("two pairs with no separator between them (%s, %s)", shortName(fn), p.Pos(instrPos(at)))] = true
+		case t == "sep" && (prev == "sep" || prev == "open"):
+			probs[fmt.Sprintf("a separator with nothing before it (%s, %s)", shortName(fn), p.Pos(instrPos(at)))] = true
+		case t == "close" && prev == "sep":
+			probs[fmt.Sprintf("a separator right before the closing brace (%s, %s)", shortName(fn), p.Pos(instrPos(at)))] = true
+		}
+		if t == "close" {
+			return "pair"
+		}
+		return t
+	}
+	var effOf func(fn *ssa.Function, depth int) effect
+	effOf = func(fn *ssa.Function, depth int) effect {
+		if e, ok := memo[fn]; ok {
+			return e
+		}
+		id := effect{}
+		for _, st := range states {
+			id[st] = map[string]bool{st: true}
+		}
+		if busy[fn] || depth > 4 || len(fn.Blocks) == 0 {
+			return id
+		}
+		busy[fn] = true
+		defer delete(busy, fn)
+		out := effect{}
+		for _, st := range states {
+			out[st] = map[string]bool{}
+		}
+		ok := enumPathsMode(fn, mode, 4096, func(path []*ssa.BasicBlock) {
+			cur := map[string]map[string]bool{} // in-state -> current states
+			for _, st := range states {
+				cur[st] = map[string]bool{st: true}
+			}
+			for _, cs := range pathCalls(path) {
+				if _, isDefer := cs.(*ssa.Defer); isDefer {
+					continue
+				}
+				cal := calleeOf(cs)
+				if cal == nil {
+					continue
+				}
+				if t := token(cs); t != "" {
+					for _, st := range states {
+						next := map[string]bool{}
+						for pv := range cur[st] {
+							// problems are reported for the states that are really possible: decided at the top level
+							next[step(pv, t, cs, fn)+""] = true
+						}
+						cur[st] = next
+					}
+					continue
+				}
+				var sub effect
+				switch {
+				case cal == sa:
+					sub = effect{}
+					for _, st := range states {
+						sub[st] = map[string]bool{st: true}
+						// at least one member: separator first (none right after an opening brace), pair last
+						sub[st]["pair"] = true
+					}
+				case cal.Pkg == p.Slog && cal.Signature.Recv() != nil && typeName(cal.Signature.Recv().Type()) == "Entry" && !m.SinkFns[cal]:
+					sub = effOf(cal, depth+1)
+				default:
+					continue
+				}
+				for _, st := range states {
+					next := map[string]bool{}
+					for pv := range cur[st] {
+						for o := range sub[pv] {
+							next[o] = true
+						}
+					}
+					cur[st] = next
+				}
+			}
+			for _, st := range states {
+				for o := range cur[st] {
+					out[st][o] = true
+				}
+			}
+		})
+		if !ok {
+			incomplete = true
+		}
+		memo[fn] = out
+		return out
+	}
+	// problems raised while summarising are raised for every possible in-state; to report only real ones the record
+	// is walked once more from its true start state with the summaries as they are: the summaries' problem sites are
+	// kept only when the offending in-state is reachable. (The step function above is state-exact, so a site is
+	// recorded exactly when some in-state makes it fail; the reachable in-states are those of the top-level walk.)
+	probs = map[string]bool{}
+	reach := map[*ssa.Function]map[string]bool{}
+	var mark func(fn *ssa.Function, in map[string]bool, depth int)
+	mark = func(fn *ssa.Function, in map[string]bool, depth int) {
+		if depth > 4 || len(fn.Blocks) == 0 {
+			return
+		}
+		if reach[fn] == nil {
+			reach[fn] = map[string]bool{}
+		}
+		fresh := false
+		for st := range in {
+			if !reach[fn][st] {
+				reach[fn][st] = true
+				fresh = true
+			}
+		}
+		if !fresh {
+			return
+		}
+		enumPathsMode(fn, mode, 4096, func(path []*ssa.BasicBlock) {
+			cur := map[string]bool{}
+			for st := range in {
+				cur[st] = true
+			}
+			for _, cs := range pathCalls(path) {
+				if _, isDefer := cs.(*ssa.Defer); isDefer {
+					continue
+				}
+				cal := calleeOf(cs)
+				if cal == nil {
+					continue
+				}
+				if t := token(cs); t != "" {
+					next := map[string]bool{}
+					for pv := range cur {
+						next[step(pv, t, cs, fn)] = true
+					}
+					cur = next
+					continue
+				}
+				switch {
+				case cal == sa:
+					cur["pair"] = true
+				case cal.Pkg == p.Slog && cal.Signature.Recv() != nil && typeName(cal.Signature.Recv().Type()) == "Entry" && !m.SinkFns[cal]:
+					mark(cal, cur, depth+1)
+					sub := effOf(cal, depth+1)
+					next := map[string]bool{}
+					for pv := range cur {
+						for o := range sub[pv] {
+							next[o] = true
+						}
+					}
+					cur = next
+				}
+			}
+		})
+	}
+	saved := probs
+	effOf(pi, 0) // fills memo (its problem reports are discarded)
+	probs = saved
+	for k := range probs {
+		delete(probs, k)
+	}
+	mark(pi, map[string]bool{"open": true}, 0)
+	end := effOf(pi, 0)["open"]
+	var list []string
+	for k := range probs {
+		list = append(list, k)
+	}
+	sort.Strings(list)
+	if end["sep"] {
+		list = append(list, "the record can end with a separator")
+	}
+	key := fmt.Sprintf("pairs[%s]:record", mode)
+	switch {
+	case incomplete:
+		r.Unk(rule, key, p.FuncPos(pi), "too many paths through the record printers")
+	case len(list) > 0:
+		r.Bad(rule, key, p.FuncPos(pi), "in %s mode some combination of flags and record contents prints %s: the record is no longer a sequence of separated pairs", mode, strings.Join(list, "; "))
+	default:
+		r.Ok(rule, key, p.FuncPos(pi), "over all feasible paths of the record printer and the member printers it calls (%d functions), pairs and separators alternate", len(memo))
+	}
+}
+
+// ---- no reader with a hidden size limit on the print path (C06 R06.3, C02) ------------------------------------------
+//
+// bufio.Scanner stops at a token longer than its buffer limit (64 KiB unless Buffer() was called) and Scan() then
+// just returns false: a message line longer than that, and everything after it, silently disappears from the
+// record. Nothing in the print tree scans text with it.
+func noScannerOnPrintPath(c *Ctx, p *Prog, m *Model, rule string) {
+	r := c.R
+	var probs []string
+	for fn := range printTree(p, m) {
+		for _, cs := range callsIn(fn) {
+			if cal := calleeOf(cs); cal != nil && (cal.String() == "bufio.NewScanner" || cal.String() == "(*bufio.Scanner).Scan") {
+				probs = append(probs, fmt.Sprintf("%s uses bufio.Scanner at %s", shortName(fn), p.Pos(instrPos(cs))))
+			}
+		}
+	}
+	sort.Strings(probs)
+	r.Check(len(probs) == 0, rule, "no-scanner", "-", "no bufio.Scanner on the print path", strings.Join(dedupStr(probs), "; ")+": a line longer than the scanner's token limit (64 KiB) ends the scan silently, so that line and the rest of the message are dropped from the record")
+}
+
+// ---- every file name of a frame goes through the hardening (C18 R18.7) ----------------------------------------------------
+//
+// The runtime hands out absolute source paths in two places: the File field of runtime.Frame and the first result of
+// (*runtime.Func).FileLine. Wherever the package reads one of them on the way to a record (or to the exported
+// Source), the value is used for nothing but as the argument of the hardening function.
+func frameFilesHardened(c *Ctx, p *Prog, m *Model) {
+	r := c.R
+	onlyHardened := func(v ssa.Value) string {
+		refs := v.Referrers()
+		if refs == nil {
+			return ""
+		}
+		for _, ref := range *refs {
+			switch x := ref.(type) {
+			case *ssa.DebugRef:
+			case ssa.CallInstruction:
+				if cal := calleeOf(x); cal != nil && nm(cal) == "checkpath" {
+					continue
+				}
+				if cal := calleeOf(x); cal != nil && cal.Pkg != p.Slog && (cal.Name() == "Fprintf" || cal.Name() == "Sprintf") && !printTree(p, m)[x.Parent()] {
+					continue // the stack dump of the panic/diagnostic helpers, outside the record path
+				}
+				return "it is passed to " + x.Common().String()
+			case *ssa.MakeInterface:
+				// boxed for a formatting call outside the print tree (diagnostic stack dump)
+				if !printTree(p, m)[x.Parent()] {
+					continue
+				}
+				return "it is boxed and handed on unhardened"
+			default:
+				return fmt.Sprintf("it is used by %T", ref)
+			}
+		}
+		return ""
+	}
+	n := 0
+	for _, fn := range p.RepoFuncs() {
+		if fn.Pkg != p.Slog {
+			continue
+		}
+		for _, b := range fn.Blocks {
+			for _, in := range b.Instrs {
+				var file ssa.Value
+				switch x := in.(type) {
+				case *ssa.Field:
+					if typeName(x.X.Type()) == "Frame" && nm(structOf(x.X.Type()).Field(x.Field)) == "File" {
+						file = x
+					}
+				case *ssa.UnOp:
+					if fa, ok := x.X.(*ssa.FieldAddr); ok && x.Op == token.MUL {
+						if nt := namedOf(fa.X.Type()); nt != nil && nt.Obj().Pkg() != nil && nt.Obj().Pkg().Path() == "runtime" && nt.Obj().Name() == "Frame" && structOf(fa.X.Type()).Field(fa.Field).Name() == "File" {
+							file = x
+						}
+					}
+				case *ssa.Extract:
+					if call, ok := x.Tuple.(*ssa.Call); ok && x.Index == 0 {
+						if cal := calleeOf(call); cal != nil && cal.String() == "(*runtime.Func).FileLine" {
+							file = x
+						}
+					}
+				}
+				if file == nil {
+					continue
+				}
+				n++
+				why := onlyHardened(file)
+				r.Check(why == "", "R18.7", fmt.Sprintf("frame-file:%s#%d", shortName(fn), n), p.Pos(instrPos(in)), "the frame's file name is only handed to the hardening function", "a source path obtained from the runtime in "+shortName(fn)+" does not go through the hardening ("+why+"): records printed along that route carry the raw absolute path")
+			}
+		}
+	}
+	if n == 0 {
+		r.Unk("R18.7", "frame-file:none", "-", "no read of a frame's file name found")
+	}
+}
+
+// ---- registration options are independent (C17 R17.5) --------------------------------------------------------------------
+//
+// Each RegOpt constructor sets its own setting(s) of the registration pack: no setting is written by two different
+// constructors (else the result depends on the order in which the options are given).
+func regOptsIndependent(c *Ctx, p *Prog) {
+	r := c.R
+	writers := map[string][]string{}
+	n := 0
+	for _, fn := range p.RepoFuncs() {
+		if fn.Pkg != p.Slog || fn.Parent() == nil {
+			continue
+		}
+		top := fn.Parent()
+		if top.Signature.Results().Len() != 1 || typeName(top.Signature.Results().At(0).Type()) != "RegOpt" {
+			continue
+		}
+		n++
+		seen := map[string]bool{}
+		for _, fs := range fieldStores(fn) {
+			if fs.Struct == "regPack" && !seen[fs.Field] {
+				seen[fs.Field] = true
+				writers[fs.Field] = append(writers[fs.Field], top.Name())
+			}
+		}
+	}
+	if n < 3 {
+		r.Unk("R17.5", "regopts:independent", "-", "only %d registration options found", n)
+		return
+	}
+	var probs []string
+	for f, ws := range writers {
+		if len(dedupStr(ws)) > 1 {
+			sort.Strings(ws)
+			probs = append(probs, fmt.Sprintf("%s is set by %s", f, strings.Join(dedupStr(ws), " and ")))
+		}
+	}
+	sort.Strings(probs)
+	r.Check(len(probs) == 0, "R17.5", "regopts:independent", "-", fmt.Sprintf("each setting of the registration pack is written by one option constructor only (%d options)", n), strings.Join(probs, "; ")+": what a registration does then depends on the order of its options (a later option silently cancels an earlier one)")
 }
